@@ -99,7 +99,29 @@ type srcState struct {
 	src     dials.Source
 	handed  []handed
 	doneAt  int
-	lastSub map[string]uint64 // reporter client -> id of its last successfully submitted part
+	subs    map[string]*subState // reporter client -> what it has submitted
+}
+
+// subState: the last part a client surely delivered to the monitor, and the
+// parts after it whose delivery is unknown (blocking report abandoned on a
+// context error).
+type subState struct {
+	sure   uint64
+	has    bool
+	maybes []uint64
+}
+
+func (st *srcState) submitted(client string, id uint64, sure bool) {
+	ss := st.subs[client]
+	if ss == nil {
+		ss = &subState{}
+		st.subs[client] = ss
+	}
+	if sure {
+		ss.sure, ss.has, ss.maybes = id, true, nil
+	} else {
+		ss.maybes = append(ss.maybes, id)
+	}
 }
 
 // handed is a value given to dials, with the fingerprint it had at that moment.
@@ -419,10 +441,10 @@ func (r *Run) reporter(c *ClientSpec) {
 			r.end(rec, err)
 			cancel()
 			if err == nil || op.K == "breport" && !isCtxErr(err) {
-				st.lastSub[c.Name] = op.Part.ID
+				st.submitted(c.Name, op.Part.ID, true)
 			} else if op.K == "breport" {
 				// submission state unknown: the value may or may not have reached the monitor
-				st.lastSub[c.Name+"?"] = op.Part.ID
+				st.submitted(c.Name, op.Part.ID, false)
 			}
 		case "err":
 			rec := r.begin(c, i, op)
@@ -647,9 +669,11 @@ func (r *Run) blankClient(c *ClientSpec) {
 			r.end(rec, err)
 			cancel()
 			if err == nil {
-				st.lastSub[c.Name] = op.Part.ID
-			} else if op.Str != "fail" && isCtxErr(err) {
-				st.lastSub[c.Name+"?"] = op.Part.ID
+				st.submitted(c.Name, op.Part.ID, true)
+			} else if op.Str != "fail" {
+				// SetSource reports rejections and context errors alike as
+				// "failed to propagate change": delivery unknown
+				st.submitted(c.Name, op.Part.ID, !isCtxErr(err))
 			}
 		case "bdone":
 			rec := r.begin(c, i, op)
@@ -690,7 +714,7 @@ func newRun(sc *Scenario) *Run {
 func (r *Run) buildSources() []dials.Source {
 	var out []dials.Source
 	for i := range r.sc.Sources {
-		st := &srcState{idx: i, spec: r.sc.Sources[i], lastSub: map[string]uint64{}}
+		st := &srcState{idx: i, spec: r.sc.Sources[i], subs: map[string]*subState{}}
 		r.srcs = append(r.srcs, st)
 		switch st.spec.Kind {
 		case "static":
